@@ -24,7 +24,7 @@ CLAIMED = {
   note="Trusted: interpreter, HashMap/iterator/string models. Stubs (arbitrary within their contract): globset (allow/ignore are free booleans per path), ignore::Walk, FileSystem, BlocksParser::parse, unidiff::PatchSet::from_str. Not decided: glob semantics, hidden/git-ignored files, repository-root discovery, cwd, quoted paths."),
  'C10': dict(
   text="For every enumerated layout (lines before, indentation, 1-4 comment lines, tag on any of them, text after the comment on its last line, per-line lead/key/trail shapes) and every value of the key and blank bytes, Z3 shows on the MIR of the block parser glue and of the five sync validators: a sort/unique/pattern violation's line and byte columns delimit exactly the first offending key in the assembled file; line-count and affects violations span exactly '<'..'>' of the start tag; the block's tag position and content byte range are those of the layout.",
-  note="Trusted: interpreter, string models. Stubs: tree-sitter (the two Comment values of a /* */ layout; validated on sampled witnesses against the real binary), the winnow tag scanner (reference scanner), regex for ^a+$ only, serde_json::to_value. Not decided: Lua/AI ranges (async), regex-group keys, multi-byte text, other comment syntaxes."),
+  note="Trusted: interpreter, string models. Stubs: tree-sitter (the two Comment values of a /* */ layout; validated on sampled witnesses against the real binary), regex for ^a+$ only; the tag scanner and grammar are the crate's MIR on the winnow combinator models (C05), serde_json::to_value. Not decided: Lua/AI ranges (async), regex-group keys, multi-byte text, other comment syntaxes."),
  'C06': dict(
   text="For every enumerated configuration (direction spelled empty/asc/ASC/desc/Desc, lexicographic or numeric format) and per-line shape of up to N content lines, and every value of the key and blank bytes, Z3 shows on the MIR of KeepSortedValidator::validate and its helpers: a violation is reported iff some key is strictly out of order w.r.t. its predecessor (bytewise, or as integers under numeric; equal neighbours are in order), exactly one, designating the first such key; the verdict does not depend on the is_content_modified / tag-modified flags.",
   note="Trusted: interpreter, string models incl. the integer fragment of f64 parsing/comparison. Stubs as in C10. Not decided: keep-sorted-pattern (regex) forms, decimal/exponent/inf/nan numerics, non-ASCII keys, more than 5 lines."),
@@ -34,12 +34,15 @@ CLAIMED = {
  'C08': dict(
   text="For six patterns (^a+$, a, ^[ab]$, ^.*b$, ^$, ^a*b+$), every enumerated per-line shape of up to N lines and every value of the key/blank bytes over {a,b,c,space,tab}, Z3 shows on the MIR of LinePatternValidator::validate: a violation iff some trimmed non-blank line is outside the pattern's language (written independently as a formula over the key bytes), exactly one, on the first such line, with the range on the trimmed text.",
   note="Trusted: interpreter, string models, the reference regex matcher mirsym/rexmodel.py (the regex crate is not encoded). Every other pattern is outside the claim."),
+ 'C05': dict(
+  text="Print/parse round trip from the attribute AST on the MIR of WinnowBlockTagParser::next (candidate '<' scan, fall-through, cursor arithmetic) and of parse_start_tag / parse_end_tag / parse_attributes / parse_attribute_name / parse_attribute_value with their closures: for every enumerated layout (0-3 attributes quick, up to 6 thorough; bare / unquoted / single- / double-quoted; 0-2 whitespace bytes around '=' and between attributes; 1-4 tags and look-alikes per text; noise gaps) and every value of all name, value, whitespace and noise bytes within their classes, Z3 shows that the events returned are exactly the written tags with their byte ranges, that the attribute map holds every written name with the value of its last occurrence (name equality symbolic) and nothing else, that `<`ws`/`ws`block`ws`>` is an end tag, and that members of five look-alike families yield no event.",
+  note="Trusted: interpreter, string/HashMap models and the models of the generic winnow 0.7 combinators (mirsym/winnowmodel.py: literal, take_while, take_till, multispace0/1, tuples, delimited, preceded, opt, alt, repeat+fold, map, void, parse_next/parse_peek) - winnow's own code is not encoded, like std; which combinators, literals, ranges and character predicates the grammar uses is read from the crate's MIR each run, and sampled paths are compared with the real binary's `list` output. char::is_alphanumeric beyond ASCII only on literal letters. Noise gaps <= 3 bytes; position -> line/column is C03/C04; what tree-sitter delivers as comment text is outside."),
  'C04': dict(
   text="Z3 is asked, on every path of the MIR, whether a panic outcome (assert failure, expect/unwrap/unreachable, slice or char-boundary failure) is reachable: in the eleven comment normaliser closures for every comment text up to N bytes that starts with the opener its grammar guarantees (closing delimiters not assumed, plus one multi-byte prefix probe for Markdown), in line_changes + the intersection functions for every diff shape of C01, and in the tag pairing / position arithmetic for the comment sequences of C12. Reachable panics are reported when a file of a language routed to that normaliser crashes the real binary; others are listed as unconfirmed.",
-  note="Rust side only. Outside: tree-sitter and its generated C parsers (crashes, hangs, stack depth), unidiff's text parser, the winnow tag scanner, clap, the OS; non-ASCII text except the one probe; termination is covered only as 'every encoded loop exhausts within the step bound on every path'."),
+  note="Rust side only. Outside: tree-sitter and its generated C parsers (crashes, hangs, stack depth), unidiff's text parser, winnow's own code (combinator models), clap, the OS; non-ASCII text except the one probe; termination is covered only as 'every encoded loop exhausts within the step bound on every path'."),
  'C12': dict(
   text="For every sequence of up to 3-4 comments drawn from templates with 0-2 tag events each (tags on first or later comment lines, end tags also in the `</ block >` spelling), with symbolic comment geometry, the MIR of parse_blocks_from_comments / PartialBlocksIterator::next returns Err exactly when the running depth dips below 0 or ends above 0; and through parse_file / parse_blocks, with a damaged file among two healthy ones in scan and in diff mode and several map orders, the run returns Err whose context names the damaged file.",
-  note="Stubs: the winnow tag scanner (event list per comment), tree-sitter (Comment values), FileSystem / PathChecker / grammar lookup. That a damaged tag in real text yields those events is outside (C05 not applicable)."),
+  note="Stubs: tree-sitter (Comment values), FileSystem / PathChecker / grammar lookup. The tag scanner and grammar run from the crate's MIR on the comment text of each template (winnow combinators are models, see C05)."),
  'C11': dict(
   text="On the MIR of main::process_violations: for every assignment of severities (symbolic) to up to N violations over up to 3 files and every map order, process::exit(1) is reached iff some severity is Error, and the map handed to the JSON writer holds every violation exactly once under its file. On validators::run / run_sync_validators with 2-3 model validators reporting on symbolic subsets of files or failing: the merged map is the disjoint union, any failure is a failure of the run. Block::severity accepts exactly error|warning|info|hint in any letter case (every attribute string up to N bytes), default Error.",
   note="Threads are modelled as a sequential schedule. Outside: the async half of run (tokio), the JSON text layout, `list`, stdout/stderr plumbing (recording stubs)."),
@@ -54,14 +57,13 @@ CLAIMED = {
   note="The Lua VM and mlua are a contract stub (library flags as sets, base library per the Lua 5.4 manual, native loading per mlua's constructors); the contract is compared with the real VM through a probe script on sampled modes in every run. What the Lua C library does beyond that is outside."),
  'C03': dict(
   text="Rust side only. (a) For every balanced sequence of up to 3-4 comments drawn from templates with 0-2 tag events each, with symbolic comment geometry (line, column, byte offset; ordered, non-overlapping), the MIR of parse_blocks_from_comments / BlockStart::new / source_position_at / into_block returns exactly the innermost-first matching, in source order, each block with the name, '<'/'>' positions, content byte range and content position range of the reference (Z3 terms over the geometry). (b) For every comment text up to N bytes the eleven normaliser closures return text of the same length in which every byte is kept or blanked and line breaks stay in place.",
-  note="The largest exclusion of the suite: tree-sitter (which nodes exist, their kinds and ranges; string literals; 23 grammars; CRLF) and the winnow tag grammar (C05) are stubs. What is claimed is the Rust glue between them."),
+  note="The largest exclusion of the suite: tree-sitter (which nodes exist, their kinds and ranges; string literals; 23 grammars; CRLF) are stubs; the tag scanner and grammar run from the crate's MIR on each template's text (winnow combinators are models, C05). What is claimed is the Rust side."),
  'C20': dict(
   text="For concrete multi-file scenarios executed on the real MIR of detect_validators, validators::run (sync path), the sync validators and process_violations, with the iteration order of every hash map and the validator spawn order chosen by the solver (all permutations of <=3 entries) and one severity attribute symbolic: the instantiated validators, the merged violations (as multisets), and the exit status are identical across all orders; parse_blocks examines the same files and produces the same keys under every walk/map order.",
   note="A hashing seed can only change iteration order, which is a parameter of the HashMap model. Threads are run in spawn order. Outside: OS scheduling, core count, cwd, the order ignore::Walk really produces, the async validators."),
 }
 
 NOT_APPLICABLE = {
- 'C05': "winnow combinator grammar: Kani symex does not terminate in 900 s even for 4 symbolic bytes; mirsym would have to model winnow, i.e. replace the code under test",
  'C18': "async coroutines on a tokio JoinSet calling the Lua VM over FFI; neither engine executes coroutine MIR, concurrency or foreign code",
  'C19': "async HTTP client; the reply logic is not separable from the network call",
 }
